@@ -7,8 +7,9 @@ CLAIMS = {
     'C24': dict(
         text='Proof (unbounded, all paths) that limit/offset composition in combine_limit_and_offset denotes the same window of the '
              'ordered result as chained Python slicing, for every result length and all non-negative bounds.',
-        note='Trusted: window spec (cross-checked vs CPython), proxy encoding of int as mathematical integers, z3. Aggregates, random(), '
-             'bulk delete and the engines\' LIMIT implementation are not covered.'),
+        note='Trusted: window spec (cross-checked vs CPython), proxy encoding of int as mathematical integers, z3. BOUNDED (never counted as proved), on real SQLite: ~70 method chains '
+             '(slices, limit, page, first / get / exists / count, aggregates, distinct, random, queries over limited queries), every sequence of <= 3 (thorough 4) filtering steps '
+             'out of 13 kinds on 3 base queries, delete / bulk delete of 11 kinds of queries, each against the Python operation on the full result. The engines\' LIMIT implementation is not covered.'),
     'C25': dict(
         text='Proof (unbounded: every string length, every integer bound; all paths) that the SQL built by SQLBuilder.STRING_SLICE '
              '(PostgreSQL, MySQL, Oracle branches), SQLiteBuilder.STRING_SLICE + py_string_slice, and StringMixin.__getitem__ on real '
@@ -22,7 +23,7 @@ CLAIMS = {
              'required-ness and custom check, returning the normalised value, else raise ValueError; plus ground call-site obligations that creation, '
              'assignment, set(), get(), exists() and select(**kw) pass through attr.validate.',
         note='Ints mathematical, floats IEEE binary64 (bounds not NaN), Decimals exact reals (Decimal(d)==d stubbed), strings with uninterpreted length and '
-             'strip (len(strip(s)) <= len(s)); max_len >= 1; py_check is an arbitrary boolean effect. Type coercions of ill-typed values (str -> int, __index__) not covered.'),
+             'strip (len(strip(s)) <= len(s)); max_len >= 1; py_check is an arbitrary boolean effect or one of 9 enumerated non-bool results judged by truth value. Type coercions of ill-typed values (str -> int, __index__) not covered.'),
     'C18': dict(
         text='Proof by exhaustive path enumeration (every combination of commit / rollback / release / user predicate / body returning or raising) of '
              'DBSessionContextManager._commit_or_rollback and __exit__ (loop-free): commit occurs iff the body finished or raised an allowed exception, '
@@ -72,14 +73,17 @@ CLAIMS = {
     'C31': dict(
         text='Proof for ALL strings (key parts) that Bag._reduce_composite_pk is uniquely decodable and therefore injective on tuples of equal arity: the real function '
              'run on symbolic strings gives enc(a),enc(b),... with one replace chain; local decoding conditions discharged by z3, lifted by the Lean lemma.',
-        note='Only the key-encoding clause of C31. to_dict()/to_json() contents and pickling round trips depend on session state and histories: not covered (stated in DESIGN).'),
+        note='Proved: only the key-encoding clause. BOUNDED (never counted as proved), real entities on SQLite: Entity.to_dict on a model with every key shape (every object x loaded / modified / '
+             'created in the session x 41 option combinations) against a reading computed from getattr; pickle round trip of objects, lists, query results and nested containers into a fresh '
+             'session, a session that holds the objects, the same session, and read after the receiving session is over. Database.to_json values are checked under C34 (to_json.filter).'),
     'C05': dict(
         text='Proof of per-call cache-key soundness (non-interference): for Query._construct_sql_and_arguments every argument handed to the cached SQL construction '
              '(limit, offset symbolic; distinct; aggregate function, distinct and separator; for_update / nowait / skip_locked symbolic) is the very value stored in the '
              'lookup key, the key also pins vartypes, pinned parameter values, join syntax option and prefetch attributes, the entry is stored under the lookup key, the '
              'result-cache key contains the SQL key and the bound arguments, and a hit recomputes nothing; adapt_sql / parse_raw_sql on a symbolic statement text; '
              'decompile keyed by the identity of a code object that is kept alive; string2ast keyed by the exact source text. _get_translator pinned-value check BOUNDED (<= 2).',
-        note='Whole-history transparency (sequences of queries interleaved with modifications) is not claimed. construct_sql_ast / ast2sql are recording stubs in the key '
+        note='Whole histories only BOUNDED (never counted as proved): warm-vs-cold differential on real SQLite over histories of <= 2 statements + core triples (thorough: all <= 3) out of 49 statement '
+             'kinds incl. modifications, flush / commit / rollback and hooks that query during flush; the run with every cache emptied before each statement is the oracle. construct_sql_ast / ast2sql are recording stubs in the key '
              'contract: what they read beyond their arguments is translator state identified by query._key (assumed).'),
     'C04': dict(
         text='Proof over a finite generating set, enumerated completely on the real ast2src / PythonTranslator: for every (parent production, slot, child production) of '
@@ -89,7 +93,8 @@ CLAIMS = {
              'folded negative constants) the regenerated text parses back (CPython parser as oracle) to the same tree or is rejected; thorough tier closes depth 3 over the '
              'operator core. Only the source-regeneration half of C04.',
         note='The step from depth-2 trees to all trees rests on the locality of parenthesisation in Python\'s expression grammar (assumption). External-node detection '
-             '(PreTranslator), evaluation in the caller frame (extract_vars) and the decompiler are NOT covered.'),
+             '(PreTranslator) and evaluation in the caller scope (extract_vars, get_globals_and_locals) only BOUNDED (never counted as proved): ~55 ways of mentioning outer-scope values '
+             '(globals, locals, closures, shadowing, rebinding between runs, function / generator objects made in another module) on real SQLite against Python evaluation. The decompiler is C03.'),
     'C11': dict(
         text='Proof over symbolic maps (z3 arrays with arbitrary content, skolem key): SessionCache.update_simple_index / db_update_simple_index change the key index to '
              'exactly old-removed / new -> obj with every other key unchanged, raise (and change nothing, record nothing) exactly when the new key is held by another object, '
@@ -110,7 +115,8 @@ CLAIMS = {
         text='BOUNDED stand-in (never counted as proved): contracts stated on the real reverse-side functions and checked for every combination of per-object collection '
              'states for objects of length <= 3/4 (Set.reverse_add / reverse_remove incl. do;undo == identity, db_reverse_add / db_reverse_remove incl. the phantom refusal), '
              'and both-ends agreement of the whole session (every pair of reverse attributes, every pair of loaded objects) after each of 30 modification scenarios on a model '
-             'with one-to-one (required and optional), many-to-one, many-to-many and cascade relationships, on success and on every raising path incl. injected callee failures.',
+             'with one-to-one (required and optional), many-to-one, many-to-many and cascade relationships, on success and on every raising path incl. injected callee failures; '
+             'histories of <= 2 (thorough 3) relationship operations under 6 load states (objects loaded, known by key only, not known) checked against a dict of the links made and the raw rows.',
         note='No unbounded obligation: the quantifier over all histories is outside the technique; K objects per call and the scenario set are the bounds. Recursive maintenance through '
              '__set__ / _delete_ is exercised only by the scenarios.',
         technique='contracts on real functions, bounded exhaustive state enumeration (contract-based family, bounded stand-in)'),
@@ -125,8 +131,9 @@ CLAIMS = {
         text='BOUNDED stand-in (never counted as proved): the real has_perm / can_view / can_edit on real entities with <= 2/3 access rules on the entity and <= 2 on the '
              'reverse entity, every combination of per-rule predicates (groups, roles, labels satisfied; entity / attribute excluded), entity / plain attribute / hidden '
              'attribute / relationship attribute / object targets, both iteration orders of the rule collection, checked against the declarative reading of the rules; '
-             'repeated calls agree; AccessRule.exclude covers subclasses and refuses primary keys.',
-        note='K rules per entity is the bound. Database.to_json filtering is not covered. get_user_groups / roles / labels are stubs.',
+             'repeated calls agree; AccessRule.exclude covers subclasses and refuses primary keys; Database.to_json on real perm() / getter declarations: 4 users x 16 include sets x 19 data shapes, '
+             'refused exactly when the closure of the data under include holds an object the user may not view, else exactly the closure with current values.',
+        note='K rules per entity is the bound. get_user_groups / roles / labels are stubs in the has_perm contracts and real getters in the to_json contract.',
         technique='contract on the real function vs a declarative spec, bounded exhaustive enumeration of rule sets (contract-based family, bounded stand-in)'),
     'C07': dict(
         text='Proof for all values of the integer codecs: round_microseconds_to_precision (floor to 10^(6-p), None iff unchanged, idempotent; every microsecond value, precision 0..6) and '
